@@ -145,7 +145,25 @@ def seed_table():
     return "\n".join(out)
 
 
+def seeded_results():
+    p = os.path.join(HERE, "mutants", "RESULTS.txt")
+    rows = {}
+    if os.path.exists(p):
+        for line in open(p, errors="replace"):
+            m = re.match(r"(CAUGHT|MISSED|TROUBLE) seeded/([^\s:]+):?\s*(.*)", line.strip())
+            if m:
+                rows[m.group(2)] = (m.group(1), m.group(3).strip()[:170])
+    out = ["# Seeded changes (independent sub-agents) vs the current checks", "",
+           "Every entry was confirmed in a scratch worktree by tools/seed_verify.sh (demo passes on the unchanged tree, fails with the patch; existing ./lisp/... ./parser/... tests pass with the patch) and then run against the property's quick check (tools/mutants_run.sh).  `first` = result when the seed was first tried, before any strengthening it prompted (see DESIGN.md section 10.4).", "",
+           "| seed | property | first | quick check now | oracle that fires |", "|---|---|---|---|---|"]
+    for n in sorted(rows):
+        v, o = rows[n]
+        out.append("| %s | %s | %s | %s | %s |" % (n, n[:3], "MISSED" if n in FIRST_MISSED else "CAUGHT", v, o.replace("|", "/")))
+    open(os.path.join(HERE, "seeded", "RESULTS.md"), "w").write("\n".join(out) + "\n")
+
+
 def main():
+    seeded_results()
     p = os.path.join(HERE, "DESIGN.md")
     s = open(p).read()
     for marker, text in (("MUTANT-TABLE", mutant_table()), ("SEED-TABLE", seed_table())):
